@@ -268,6 +268,9 @@ def install_vec(I: Interp):
         return v if isinstance(v, Vec) else None
     E["numpy.asarray"] = (lambda old: lambda I, a, k, n: a[0] if isinstance(a[0], Vec) else Vec(a[0]) if isinstance(a[0], (list, tuple)) and a[0] and all(isinstance(x, Num) or type(x).__module__.startswith("sympy") for x in a[0]) else old(I, a, k, n))(E["numpy.asarray"])
     E["numpy.array"] = E["numpy.asarray"]
+    # numpy.atleast_1d: arrays and sequences as numpy.asarray, a scalar becomes a one-element vector
+    E["numpy.atleast_1d"] = lambda I, a, k, n: E["numpy.asarray"](I, a, k, n) if isinstance(a[0], (Vec, list, tuple)) or type(a[0]).__name__ in ("Arr", "ndarray") \
+        else Vec([a[0]]) if isinstance(a[0], Num) or type(a[0]).__module__.startswith("sympy") else E["numpy.asarray"](I, a, k, n)
     A[("Vec", "size")] = lambda I, v, n: Num.const(len(v.items))
     A[("Vec", "shape")] = lambda I, v, n: (Num.const(len(v.items)),)
     M[("Vec", "__iter__")] = lambda I, v, a, k, n: list(v.items)
@@ -382,6 +385,21 @@ def install_vec(I: Interp):
         """numpy.unique on a non-decreasing symbolic vector: adjacent equalities fork (assumption: input is sorted)"""
         import ast as _a
         v = a[0]
+        if not hasattr(v, "items") or isinstance(v, dict):
+            # a plain sequence of values whose order is not known: the result is SORTED - its i-th element is an order statistic of the
+            # input, not the i-th input (duplicates are assumed absent: the shortest result is the interesting one for callers that pair it
+            # with another sequence by position)
+            xs = list(I.iterate(v, n))
+            try:
+                conc = sorted({I.to_py(x, n) for x in xs})
+                return Vec([Num.const(c) if not getattr(I, "sympy_mode", False) else __import__("sympy").sympify(c) for c in conc])
+            except Exception:
+                pass
+            desc = ",".join(I.describe(x) for x in xs)
+            if getattr(I, "sympy_mode", False):
+                _sp = __import__("sympy")
+                return Vec([_sp.Symbol(f"sorted{i}({desc})", positive=True) for i in range(len(xs))])
+            return Vec([Num.atom(f"sorted{i}({desc})") for i in range(len(xs))])
         vals, idx = [], []
         for i, x in enumerate(v.items):
             if vals and I.truth(I.compare(_a.Eq(), vals[-1], x, n), n, label=f"dup[{i}]"):
